@@ -336,7 +336,7 @@ def run_end_to_end(ctx, prop):
             break
         nq = rng.choice([2, 2, 3])
         paulis = ["".join(rng.choice("IXYZ") for _ in range(nq)) for _ in range(rng.randint(1, 4))]
-        coeffs = [rng.randint(-4, 4) / 2 for _ in paulis]
+        coeffs = [rng.randint(-4, 4) / 2 or 1.0 for _ in paulis]  # a zero operator is rejected by the primitives ("Empty observable")
         op = SparsePauliOp(paulis, coeffs)
         aux_kind = rng.choice(["none", "list", "dict"])
         auxops = [SparsePauliOp(["Z" * nq], [1.0]), SparsePauliOp(["X" + "I" * (nq - 1)], [0.5])]
